@@ -1830,6 +1830,13 @@ func requiredLandmarkAlternativeMatch(input []rune, start, endAt int, alt syntax
 		if end-start < alt.MinRepeat {
 			return requiredLandmarkMatch{}, false
 		}
+		if alt.RequireWhitespaceAfter && alt.TrailingWhitespaceSet != nil {
+			// The set may itself contain whitespace ([a ]{1,2}\s+): the run may have to stop
+			// short of its greedy end for the required whitespace to follow it.
+			for end-start > alt.MinRepeat && (end >= endAt || !alt.TrailingWhitespaceSet.CharIn(input[end])) {
+				end--
+			}
+		}
 	} else {
 		return requiredLandmarkMatch{}, false
 	}
